@@ -2,6 +2,7 @@ import IoraModel.Lemmas.UdpEngine
 import IoraModel.Lemmas.UdpTokens
 import IoraModel.Lemmas.UdpCount
 import IoraModel.Lemmas.UdpArm
+import IoraModel.Lemmas.UdpWake
 /-!
 # C06 — UDP keeps datagram boundaries and the peer-to-session mapping
 
@@ -165,9 +166,9 @@ theorem T2_nextSid_monotone (cfg : Cfg) (tok : Nat) (st : State) (i : In) : st.n
     | nil => intro _; rfl
     | cons d ds ih =>
       intro st'; simp only [clientRecvMany]
-      split
+      rw [ih]; split
       · rfl
-      · rw [ih]; split <;> rfl
+      · unfold touchClient; split <;> rfl
   cases i with
   | listen v6 => exact Nat.le_refl _
   | recvFrom lid dgs =>
@@ -442,5 +443,116 @@ theorem T3_refuted_without_guard :
 
 example : (step { eraseGuarded := false } 4 (run { eraseGuarded := false } f17History).1 (.recvFrom 1 [(7, [2])])).2 =
     [.accept 3 7, .data 3 [2]] := by decide
+
+/-! ## Wake-ups — which datagrams a receive loop sees (kernel queues, EPOLLET, the shape of the loops)
+
+Everything above takes "the datagrams one `recvfrom` loop returns" as an input. `Model/UdpWake.lean` removes that assumption: the
+environment only says which datagrams ARRIVE at a socket; they wait in the socket's kernel queue, epoll reports the socket, the
+engine's loop — as the translator read it from the source — runs once, and what it does not take stays queued, silently under
+EPOLLET until the next arrival. -/
+
+/-- the wake-up layer with everything from `Gen/Udp.lean`: `useEdgeTriggered` and the shapes of both receive loops -/
+def defaultW : WCfg := {}
+
+/-- **G8.** Both receive loops (`readFromListener`, the EPOLLIN part of `onClient`) are unbounded loops around ONE `recv`/`recvfrom`
+whose only exits are the EAGAIN break and the hard-error exit; a zero-length read does not leave them (for `onClient` that is the FC06b
+repair: `continue`, not `break`). `onListener`/`onClient` handle EPOLLIN before EPOLLOUT of one (merged) event, `handleFdEvent` routes by
+the descriptor's tag, `addEpoll`/`modEpoll` hand exactly `(fd, ev)` to `epoll_ctl`, and the base of every interest mask is exactly `EPOLLIN`
+(`EPOLLET` is or-ed in under `useEdgeTriggered` only — a translator error otherwise —; no `EPOLLONESHOT`/`EPOLLEXCLUSIVE`, which would
+disarm or divert the socket after one report). -/
+theorem G8_read_loops_drain :
+    defaultW.lloop.drains ∧ defaultW.cloop.drains ∧ Gen.Udp.listenerReadsBeforeWrites = true ∧ Gen.Udp.clientReadsBeforeWrites = true ∧
+    Gen.Udp.handleFdEventRoutesByTag = true ∧ Gen.Udp.epollCtlWrappersPlain = true ∧
+    Gen.Udp.maskBases.all (fun x => x.2 == "EPOLLIN") = true := by decide
+
+/-- **T1 (API).** `send()` turns an accepted call into exactly ONE `Cmd::send` carrying one copy of exactly the caller's `n` bytes (and
+nothing at all for `n == 0`); `sendAsync()` is one `send()` call — so "an accepted send" of the property IS one `cmdSend` input. -/
+theorem T1_api_send_is_one_command : Gen.Udp.apiSendIsOneCommand = true ∧ Gen.Udp.apiSendAsyncIsOneSend = true := by decide
+
+/-- **T2 (a wake-up conserves the queue).** Whatever the shape of the loop (any budget, zero-length ends it or not): what one wake-up
+takes followed by what it leaves IS the kernel queue — nothing invented, dropped, duplicated or reordered between arrival and `recvMany`. -/
+theorem T2_wake_conserves {α : Type} (isZero : α → Bool) (zeroEnds : Bool) (budget : Option Nat) (q : List α) :
+    (takeLoop isZero zeroEnds budget q).1 ++ (takeLoop isZero zeroEnds budget q).2 = q :=
+  takeLoop_partition isZero zeroEnds q budget
+
+/-- **T3 (nothing readable is left behind).** With loops that drain (G8) and EPOLLIN armed (G4), after EVERY history of arrivals,
+commands, flushes, expiry and restarts — edge-triggered or level-triggered — every kernel receive queue is empty: each wake-up has
+read everything that had arrived. This is what "further datagrams keep arriving" needs under EPOLLET, where a left-over is not
+reported again. -/
+theorem T3_nothing_left_behind (w : WCfg) (hf : ArmFacts w.cfg) (hl : w.lloop.drains) (hc : w.cloop.drains) (h : List WIn) :
+    (∀ lid, (wrun w h).1.lq lid = []) ∧ (∀ sid, (wrun w h).1.cq sid = []) :=
+  (wrunFrom_refines w hf hl hc h 0 {} arm_init qempty_init).2.2
+
+/-- **T3 (the arrival model is the engine model).** Under the same hypotheses a history of ARRIVALS produces exactly the events and
+the engine state of `run` on the history in which every receive loop returns exactly what arrived: every theorem above (T1–T3, stated
+for `run` and for `recvMany`/`clientRecvMany` on what a loop returns) holds for what ARRIVES, whole burst by whole burst. -/
+theorem T3_wake_refines (w : WCfg) (hf : ArmFacts w.cfg) (hl : w.lloop.drains) (hc : w.cloop.drains) (h : List WIn) :
+    (wrun w h).1.st = (run w.cfg (h.map WIn.toIn)).1 ∧ (wrun w h).2 = (run w.cfg (h.map WIn.toIn)).2 :=
+  ⟨(wrunFrom_refines w hf hl hc h 0 {} arm_init qempty_init).1, (wrunFrom_refines w hf hl hc h 0 {} arm_init qempty_init).2.1⟩
+
+/-- the hypotheses hold for the code as it is -/
+example : ArmFacts defaultW.cfg ∧ defaultW.lloop.drains ∧ defaultW.cloop.drains :=
+  ⟨G4_interest_facts, G8_read_loops_drain.1, G8_read_loops_drain.2.1⟩
+
+/-- non-vacuity: a burst of three with a zero-length datagram in the middle on a client socket, and one on a listener -/
+example : (wrun defaultW [.io (.connect 5 false), .arriveC 1 [[1], [], [2, 3]], .io (.listen false), .arriveL 1 [(7, [4]), (7, []), (8, [5])]]).2 =
+    [.connected 1 5, .data 1 [1], .data 1 [], .data 1 [2, 3], .accept 2 7, .data 2 [4], .accept 3 8, .data 3 [5]] := by decide
+
+/-- **T3 (keeps arriving, event level, one theorem).** After ANY history of arrivals, commands, flushes, expiry and restarts at whose
+end `a ↦ sid` (by `T3_history` that is the case as long as `sid` itself has not been closed), a datagram of 1…65507 bytes from `a` that
+ARRIVES at any existing listener socket is read by that very wake-up (nothing stays in the kernel queue), comes out as exactly the one
+event `data sid bytes` — no accept, not on another session — and the mapping stays. -/
+theorem T3_keeps_arriving (w : WCfg) (hf : ArmFacts w.cfg) (hl : w.lloop.drains) (hc : w.cloop.drains) (hK : KeyInjective w.cfg.key)
+    (hchunk : maxDatagram ≤ w.cfg.ioReadChunk) (h : List WIn) (a sid lid : Nat) (l : Lst)
+    (hix : (wrun w h).1.st.peerIndex (w.cfg.key a) = some sid) (hlst : (wrun w h).1.st.listeners lid = some l)
+    (dg : Bytes) (hne : dg ≠ []) (hlen : dg.length ≤ maxDatagram) :
+    (wstep w h.length (wrun w h).1 (.arriveL lid [(a, dg)])).2 = [.data sid dg] ∧
+    (wstep w h.length (wrun w h).1 (.arriveL lid [(a, dg)])).1.lq lid = [] ∧
+    (wstep w h.length (wrun w h).1 (.arriveL lid [(a, dg)])).1.st.peerIndex (w.cfg.key a) = some sid := by
+  obtain ⟨hst, _⟩ := T3_wake_refines w hf hl hc h
+  have hq : QEmpty (wrun w h).1 := T3_nothing_left_behind w hf hl hc h
+  have harm : ArmInv (wrun w h).1.st := by rw [hst]; exact run_arm w.cfg hf _
+  obtain ⟨r1, r2, r3⟩ := wstep_refines w hl hc h.length (wrun w h).1 (.arriveL lid [(a, dg)]) harm hq
+  have hread := T2_listener_always_read w.cfg hf (h.map WIn.toIn) lid l (by rw [← hst]; exact hlst) [(a, dg)]
+  have hnext := T3_next_datagram w.cfg hK hchunk (h.map WIn.toIn) lid a sid dg hne hlen (by rw [← hst]; exact hix)
+  simp only [WIn.toIn] at r1 r2
+  rw [hst] at r1 r2
+  rw [List.length_map] at hread
+  rw [hread] at r1 r2
+  simp only [recvMany, List.append_nil] at r1 r2
+  exact ⟨by rw [r2]; exact hnext.1, r3.1 lid, by rw [r1]; exact hnext.2⟩
+
+/-- non-vacuity: the hypotheses of `T3_keeps_arriving` are met after a history with a burst, a zero-length datagram and a restart -/
+example : (wrun defaultW [.io (.listen false), .arriveL 1 [(7, [1]), (7, []), (8, [2])], .io (.close 2), .arriveL 1 [(8, [3])]]).1.st.peerIndex
+    (defaultW.cfg.key 7) = some 1 := by decide
+
+/-- **FC06b (why `continue`).** With the unrepaired `break` after a zero-length read in `onClient` and EPOLLET (the default), T3 is
+FALSE: a 5-byte datagram that arrived right behind a zero-length one is not delivered by that wake-up, stays in the kernel queue, is
+not reported by the next `epoll_wait` round either, and comes out only when a THIRD datagram arrives. -/
+theorem FC06b_refuted_with_zero_length_break :
+    ¬ (∀ (h : List WIn), (wrun { et := true, lloop := ⟨none, false⟩, cloop := ⟨none, true⟩ } h).1.cq 1 = []) ∧
+    (wrun { et := true, lloop := ⟨none, false⟩, cloop := ⟨none, true⟩ }
+      [.io (.connect 5 false), .arriveC 1 [[], [1, 2, 3, 4, 5]], .arriveC 1 []]).2 = [.connected 1 5, .data 1 []] ∧
+    (wrun { et := true, lloop := ⟨none, false⟩, cloop := ⟨none, true⟩ }
+      [.io (.connect 5 false), .arriveC 1 [[], [1, 2, 3, 4, 5]], .arriveC 1 [], .arriveC 1 [[9]]]).2 =
+      [.connected 1 5, .data 1 [], .data 1 [1, 2, 3, 4, 5], .data 1 [9]] := by
+  refine ⟨fun hall => ?_, by decide, by decide⟩
+  have := hall [.io (.connect 5 false), .arriveC 1 [[], [1, 2, 3, 4, 5]], .arriveC 1 []]
+  revert this; decide
+
+/-- … while a level-triggered socket is reported again by the next round and the left-over is delivered: the defect needs EPOLLET -/
+example : (wrun { et := false, lloop := ⟨none, false⟩, cloop := ⟨none, true⟩ }
+      [.io (.connect 5 false), .arriveC 1 [[], [1, 2, 3, 4, 5]], .arriveC 1 []]).2 = [.connected 1 5, .data 1 [], .data 1 [1, 2, 3, 4, 5]] := by decide
+
+/-- **Why the loops must be unbounded (review finding A).** With a read budget per wake-up (`for (int budget = 0; budget < 3; ++budget)`)
+and EPOLLET a burst of four leaves the fourth datagram in the kernel queue: no data event, no further report. -/
+theorem T3_refuted_with_read_budget :
+    ¬ (∀ (h : List WIn), (wrun { et := true, lloop := ⟨some 3, false⟩, cloop := ⟨none, false⟩ } h).1.lq 1 = []) ∧
+    (wrun { et := true, lloop := ⟨some 3, false⟩, cloop := ⟨none, false⟩ }
+      [.io (.listen false), .arriveL 1 [(7, [1]), (7, [2]), (7, [3]), (7, [4])], .arriveL 1 []]).2 =
+      [.accept 1 7, .data 1 [1], .data 1 [2], .data 1 [3]] := by
+  refine ⟨fun hall => ?_, by decide⟩
+  have := hall [.io (.listen false), .arriveL 1 [(7, [1]), (7, [2]), (7, [3]), (7, [4])]]
+  revert this; decide
 
 end Iora.C06
